@@ -283,21 +283,59 @@ def r07_6(run):
                w is None, "graph-cut ENTRY->EXIT: the store precedes every early return" if w is None else
                f"a tensor reached by the traversal can keep a stale {a}", path=cfg.path_text(w) if w else None)
     # (c) _in_place_op: target nulled before the graph is duplicated
-    fp = anchor_func(run, INPLACE)
-    cfg = build_cfg(run, fp, switch_assumptions(fp, track=True))
-    graphs = [n for n in own_nodes(fp.node) if isinstance(n, ast.Assign) and isinstance(n.value, ast.Call)
-              and (dotted(n.value.func) or "").endswith("DuplicatingGraph")]
-    ng = cfg.node_for(graphs[0]) if graphs else None
-    if ng is None:
-        raise AnalysisError(f"{fp.short}: DuplicatingGraph construction not found")
-    ns = {cfg.stmt_node_containing(c) for c in calls_named(fp.node, "null_grad") if norm(c.func.value) == "self"}
-    both = [[cfg.node_for(s) for s in own_nodes(fp.node) if isinstance(s, ast.Assign) and any(norm(x) == f"self.{a}" for x in s.targets)
-             and isinstance(s.value, ast.Constant) and s.value.value is None] for a in ("_grad", "_view_grad")]
-    ns.discard(None)
-    ok = (bool(ns) and cfg.set_dominates(ns, ng)) or all(b and cfg.set_dominates(set(b), ng) for b in both)
-    run.ob("R07.6", loc(fp, graphs[0]), fp.short, "in-place target's gradient nulled before the placeholder graph is built", ok,
-           "self.null_grad(...) dominates DuplicatingGraph(...)" if ok else
-           "a mutated tensor keeps the gradient of its pre-mutation value (make_placeholder_tensor asserts on it)")
+    #     ... in every function that builds a placeholder graph (item/augmented assignment, out=, and the .shape setter)
+    anchor_func(run, INPLACE)
+    builders = []
+    for fp in run.project.all_functions():
+        if fp.cls is None or fp.cls.qualname != TENSOR:
+            continue
+        graphs = [n for n in own_nodes(fp.node) if isinstance(n, ast.Assign) and isinstance(n.value, ast.Call)
+                  and (dotted(n.value.func) or "").endswith("DuplicatingGraph")]
+        if graphs:
+            builders.append((fp, graphs))
+    if not any(fp.qualname == INPLACE for fp, _g in builders):
+        raise AnalysisError(f"{INPLACE}: DuplicatingGraph construction not found")
+    run.count("functions building a placeholder graph", len(builders))
+    for fp, graphs in builders:
+        cfg = build_cfg(run, fp, switch_assumptions(fp, track=True))
+        ns = {cfg.stmt_node_containing(c) for c in calls_named(fp.node, "null_grad") if norm(c.func.value) == "self"}
+        both = [[cfg.node_for(s) for s in own_nodes(fp.node) if isinstance(s, ast.Assign) and any(norm(x) == f"self.{a}" for x in s.targets)
+                 and isinstance(s.value, ast.Constant) and s.value.value is None] for a in ("_grad", "_view_grad")]
+        ns.discard(None)
+        for gr in graphs:
+            # the root handed to DuplicatingGraph is the tensor that owns the memory: it gets a placeholder too, so its gradient must be gone as well
+            root = gr.value.args[0] if gr.value.args else None
+            if isinstance(root, ast.Name):
+                defs_ = [s for s in own_nodes(fp.node) if isinstance(s, ast.Assign) and len(s.targets) == 1 and norm(s.targets[0]) == root.id]
+                if len(defs_) == 1:
+                    root = defs_[0].value
+            alts = [(root, {})]
+            if isinstance(root, ast.IfExp):
+                t = norm(root.test)
+                flip = t.replace(" is None", " is not None") if " is None" in t else t.replace(" is not None", " is None")
+                alts = [(root.body, {t: True, flip: False}), (root.orelse, {t: False, flip: True})]
+            for r_, extra in alts:
+                if r_ is None or norm(r_) == "self":
+                    continue
+                cfr = build_cfg(run, fp, switch_assumptions(fp, track=True, extra=extra))
+                ngr = cfr.node_for(gr)
+                nr = {cfr.stmt_node_containing(c) for c in calls_named(fp.node, "null_grad") if norm(c.func.value) == norm(r_)}
+                nr |= {cfr.node_for(s) for s in own_nodes(fp.node) if isinstance(s, ast.Assign) and any(norm(x) == f"{norm(r_)}._grad" for x in s.targets)
+                       and isinstance(s.value, ast.Constant) and s.value.value is None}
+                nr.discard(None)
+                okr = ngr is not None and bool(nr) and cfr.set_dominates(nr, ngr)
+                run.ob("R07.6", loc(fp, gr), fp.short, f"gradient of the graph root `{norm(r_)}` nulled before the placeholder graph is built", okr,
+                       f"under {extra or 'all paths'} `{norm(r_)}.null_grad()` dominates DuplicatingGraph(...)" if okr else
+                       f"writing through a fresh view of a tensor that still holds a gradient: the owner `{norm(r_)}` keeps its stale gradient and "
+                       f"make_placeholder_tensor's assertion turns the in-place update into an AssertionError")
+            ng = cfg.node_for(gr)
+            if ng is None:
+                continue
+            ok = (bool(ns) and cfg.set_dominates(ns, ng)) or all(b and cfg.set_dominates(set(b), ng) for b in both)
+            run.ob("R07.6", loc(fp, gr), fp.short, "in-place target's gradient nulled before the placeholder graph is built", ok,
+                   "self.null_grad(...) dominates DuplicatingGraph(...)" if ok else
+                   "a tensor that still holds the gradient of an earlier backward() is mutated without dropping it: make_placeholder_tensor "
+                   "asserts `_grad is None`, so the in-place update raises AssertionError instead of discarding the stale gradient")
     # the public null_grad() only nulls gradients: it touches view information solely on behalf of internal callers
     ngf = anchor_func(run, f"{TENSOR}.null_grad")
     cfgn = build_cfg(run, ngf)
